@@ -1077,9 +1077,18 @@ func (c *c09Case) stopWhileQueued(t *rapid.T, next *basics.Round) {
 	if useReload {
 		what = "reloadLedger"
 	}
-	rig.force.Store(1)
-	rig.snap("stop-while-queued:"+what+"-in-progress", fmt.Sprintf("r%d..%d", first, last), c09RoleStopped, false)
-	rig.force.Store(0)
+	if finished {
+		// reloadLedger() already ran to completion with the added blocks still only in the queue (flush stalled): its replay
+		// commits the trackers up to Latest()-lookback, which counts QUEUED blocks, so the tracker DB can now be ahead of
+		// the block DB until the flush completes (observed: tracker round 4, blocks 0..3). No production caller reloads a
+		// ledger that has unflushed queued blocks (OpenLedger: empty queue; catchpoint catchup: blocks are written to the DB
+		// directly), so this state is excluded by construction instead of being imaged; see notes/C09.md.
+		vk.Excluded("reloadLedger completed while added blocks were still unflushed in the queue (not a production interleaving): no image of that state")
+	} else {
+		rig.force.Store(1)
+		rig.snap("stop-while-queued:"+what+"-in-progress", fmt.Sprintf("r%d..%d", first, last), c09RoleStopped, false)
+		rig.force.Store(0)
+	}
 	release()
 	if !finished {
 		select {
